@@ -60,6 +60,8 @@ package snapshot
 //@ func (o *snapshotter) mounts
 //@   props C08
 //@   ensures[C08] result1 == nil && checkKey != "" ==> availChecked[checkKey]
+//@   ensures[C08] remoteCommitTried == old(remoteCommitTried) && fsMountsOK == old(fsMountsOK)
+//@   loop 0 invariant[C08] remoteCommitTried == old(remoteCommitTried) && fsMountsOK == old(fsMountsOK)
 //@   loop 0 invariant[C08] len(parentPaths) == len(s.ParentIDs) && (forall j int :: 0 <= j && j <= rangeidx ==> parentPaths[j] == upath(o.root, s.ParentIDs[j]))
 //@   assert[C08] before "options = append(options, fmt.Sprintf(\"lowerdir=%s\", strings.Join(parentPaths, \":\")))" : forall j int :: 0 <= j && j < len(s.ParentIDs) ==> parentPaths[j] == upath(o.root, s.ParentIDs[j])
 
@@ -70,10 +72,15 @@ package snapshot
 //@   ensures[C08] err != nil ==> cleanups == old(cleanups)
 
 // ---- C09: the snapshot directory is in place before its metadata record becomes durable; a failed creation reclaims it ----
+// (the storage package reads the option functions it is given; it does not replace them)
+//@ func github.com/containerd/containerd/v2/core/snapshots/storage.CreateSnapshot
+//@   trusted
+//@   ensures true
 //@ func (o *snapshotter) createSnapshot
-//@   props C09
+//@   props C09,C08
 //@   requires o.ms != nil
 //@   assert[C09] before "if err = t.Commit(); err != nil {" : dirInPlace[path]
+//@   ensures[C08] remoteCommitTried == old(remoteCommitTried) && fsMountsOK == old(fsMountsOK)
 
 // ---- C09: the restore loop attempts the backend mount of every recorded remote snapshot ----
 //@ func (o *snapshotter) prepareRemoteSnapshot
@@ -115,3 +122,21 @@ package snapshot
 //@ func (o *snapshotter) cleanupDirectories
 //@   props C08
 //@   requires o.ms != nil
+
+// ---- C08: Prepare with a target ----
+// A remote commit is attempted only after the backend mounted the layer on the snapshot directory (exactly one successful
+// mount), with the snapshot marked remote; a Prepare that returns mounts (plain snapshot, or fallback after a failed
+// backend mount) has not committed anything as remote.
+//@ ghost remoteCommitTried int
+//@ func (o *snapshotter) commit
+//@   props C08
+//@   requires o.ms != nil
+//@   ghostentry remoteCommitTried = isRemote ? remoteCommitTried + 1 : remoteCommitTried
+//@   ensures[C08] remoteCommitTried == old(remoteCommitTried) + (isRemote ? 1 : 0)
+//@ func (o *snapshotter) Prepare
+//@   props C08
+//@   requires o.ms != nil && (forall j int :: 0 <= j && j < len(opts) ==> opts[j] != nil)
+//@   loop 0 invariant[C08] (forall j int :: 0 <= j && j < len(rangeslice) ==> rangeslice[j] != nil) && remoteCommitTried == old(remoteCommitTried) && fsMountsOK == old(fsMountsOK)
+//@   assert[C08] before "err := o.commit(ctx, true, target, key, append(opts, snapshots.WithLabels(base.Labels))...)" : base.Labels != nil && base.Labels[remoteLabel] == remoteLabelVal && fsMountsOK == old(fsMountsOK) + 1
+//@   ensures[C08] result1 == nil ==> remoteCommitTried == old(remoteCommitTried)
+//@   ensures[C08] remoteCommitTried == old(remoteCommitTried) || remoteCommitTried == old(remoteCommitTried) + 1
